@@ -1198,3 +1198,9 @@ V("C16", "contacts-all-ignores-chain", CTP, "                if residue_i.chain 
 V("C16", "contacts-count-uses-first-residue-twice", CTP, "                residue_lens[pair[0]] * residue_lens[pair[1]],", "                residue_lens[pair[0]] * residue_lens[pair[0]],", "C16-R5", "compute_contacts")
 V("C16", "squareform-one-triangle-only", CTP, "    contact_maps[:, residue_pairs[:, 1], residue_pairs[:, 0]] = distances\n", "", "C16-R5", "squareform")
 V("C16", "squareform-size-from-pair-count", CTP, "    n_residues = np.max(residue_pairs) + 1", "    n_residues = len(residue_pairs) + 1", "C16-R5", "squareform")
+V("C03", "join-angles-from-lengths", TRJ, "            angles = np.concatenate([t.unitcell_angles for t in trajectories])", "            angles = np.concatenate([t.unitcell_lengths for t in trajectories])", "C03-R7", "Trajectory.join")
+V("C03", "join-time-of-self-tiled", TRJ, "        time = np.concatenate([t.time for t in trajectories])", "        time = np.concatenate([self.time for t in trajectories])", "C03-R7", "Trajectory.join")
+V("C03", "twin-join-concatenate-axis-zero", TRJ, "        time = np.concatenate([t.time for t in trajectories])", "        time = np.concatenate([t.time for t in trajectories], axis=0)", None)
+V("C03", "stack-vstack-instead-of-hstack", TRJ, "        xyz = np.hstack((self.xyz, other.xyz))", "        xyz = np.concatenate((self.xyz, other.xyz), axis=0)", "C03-R7", "Trajectory.stack")
+V("C03", "twin-stack-concatenate-axis-one", TRJ, "        xyz = np.hstack((self.xyz, other.xyz))", "        xyz = np.concatenate((self.xyz, other.xyz), axis=1)", None)
+V("C03", "slice-time-not-sliced", TRJ, "        time = self.time[key]\n        unitcell_lengths, unitcell_angles = None, None", "        time = self.time\n        unitcell_lengths, unitcell_angles = None, None", "C03-R7", "Trajectory.slice")
